@@ -14,6 +14,7 @@ type c02facts struct {
 	tsStored, lStored, eStored bool
 	cnrGone bool
 	reputMarked bool // the object was put again while stored and marked for removal
+	nested      bool // a part with two levels of parent headers is stored as well
 }
 
 // c02check compares the incrementally maintained counters of container 0 and
@@ -45,6 +46,10 @@ func c02check(db *DB, f *c02facts) {
 		if f.eStored {
 			phy++
 			payload += 5
+		}
+		if f.nested {
+			phy++
+			payload += 4
 		}
 		inc := getCountersByContainer(b)
 		if f.reputMarked {
@@ -89,6 +94,19 @@ func VerifC02History() {
 	vrt.Assert(db.Put(vmObj(0, 9, object.TypeRegular, -1, 11)) == nil, "setup put")
 	vrt.Assert(db.Put(vmObj(0, 1, object.TypeRegular, -1, 7)) == nil, "setup put")
 	f.tStored = true
+	if vrt.Bool("partWithNestedParents") {
+		// a physical part whose parent header has a parent itself (e.g. an EC part of a split child)
+		root := vmObj(0, 8, object.TypeRegular, -1, 0)
+		mid := vmObj(0, 7, object.TypeRegular, -1, 0)
+		mid.SetParent(root)
+		mid.SetParentID(vmOID(8))
+		part := vmObj(0, 6, object.TypeRegular, -1, 4)
+		part.SetParent(mid)
+		part.SetParentID(vmOID(7))
+		if db.Put(part) == nil {
+			f.nested = true
+		}
+	}
 	for step := 0; step < k; step++ {
 		if f.cnrGone {
 			break
